@@ -14,7 +14,10 @@ DECIDED = ["R05a maintenance entry points call what they document (MUST)",
            "R05b both loaders load the same root (SIBLING table)",
            "R05c DbStorageIndex field order agreement (TABLE)",
            "R05d memory-mapped mirror (DELEGATE)",
-           "R05e FileStorage::rename ordering; FileStorage::copy = backup + new"]
+           "R05e FileStorage::rename ordering; FileStorage::copy = backup + new",
+           "R05e (cont.) rename deletes the OLD log",
+           "R05f cached DbVec length and stored length change together",
+           "R05g DbIndexes keeps the in-memory and the stored index lists aligned"]
 UNDECIDED = ["equality of query results before/after the maintenance operation (needs execution)"]
 
 DB = "agdb::db::DbImpl::"
